@@ -71,7 +71,53 @@ def gen_filter(rng, pgns_in_history):
     return cfg
 
 
+def gen_aging(rng):
+    """A long run of traffic that a listener drops by number, between a message that lost its tail and the next message
+    of that stream: whatever the decoder does about stale partial messages (age them out, count frames, look at the
+    clock) must go on behind the filter exactly as in front of it."""
+    from sim import n2k, catalog
+    catalog.load()
+    A, B = rng.sample([129029, 126996, 129540, 129038, 127489, 128275], 2)
+    s = rng.randrange(1, 200)
+    c = rng.randrange(8)
+    fa = [f for f in catalog.fixpoints() if f["fast"] and f["pgn"] == A] or [f for f in catalog.fixpoints() if f["fast"]]
+    A = fa[0]["pgn"]
+    p1, p2 = bytes.fromhex(rng.choice(fa)["payload"]), bytes.fromhex(rng.choice(fa)["payload"])
+    ev = []
+    m = 0
+    fr1 = n2k.fast_frames(p1, c, 0xFF)
+    keep = rng.randrange(1, len(fr1)) if len(fr1) > 1 else 1
+    for i, f in enumerate(fr1[:keep]):
+        ev.append({"f": [A, s, 255, 3, f.hex()], "k": "fast", "m": m, "i": i, "n": len(fr1)})
+    n_fill = rng.choice([60, 150, 210, 260, 400])
+    k = 0
+    while k < n_fill:
+        m += 1
+        src = 200 + (m % 40)
+        frs = n2k.fast_frames(bytes(rng.getrandbits(8) for _ in range(rng.choice([20, 43, 90]))), m % 8, 0xFF)
+        cut = len(frs) if rng.random() < 0.7 else rng.randrange(1, len(frs) + 1)
+        for i, f in enumerate(frs[:cut]):
+            ev.append({"f": [B, src, 255, 6, f.hex()], "k": "fast", "m": m, "i": i, "n": len(frs)})
+            k += 1
+    m += 1
+    c2 = c if rng.random() < 0.7 else (c + 1) % 8
+    fr2 = n2k.fast_frames(p2, c2, 0xFF)
+    for i, f in enumerate(fr2):
+        ev.append({"f": [A, s, 255, 3, f.hex()], "k": "fast", "m": m, "i": i, "n": len(fr2)})
+    t = 0.0
+    dt = rng.choice([0.001, 0.01, 0.5, 3.0])
+    for e in ev:
+        t += dt
+        e["at"] = round(t, 3)
+    listeners = [{"exclude_pgns": [B]}, {"include_pgns": [A, 60928]}, {"include_pgns": [A]},
+                 {"exclude_pgns": [B, _case(rng, "isoAddressClaim")]}, {"exclude_pgns": [_case(rng, rng.choice(IDS[B]))] if B in IDS else [B]}]
+    return {"format": rng.choice(["ebyte", "usb", "yd", "plain"]), "build_network_map": False, "events": ev,
+            "listeners": listeners, "share": {}, "aging": n_fill}
+
+
 def gen(rng, idx, tier):
+    if rng.random() < 0.04:
+        return gen_aging(rng)
     ev = bustraffic.history(rng, multi_def_bias=True, shared_names=rng.random() < 0.4)
     pgns = sorted({e["f"][0] for e in ev})
     fmt = rng.choice(["ebyte", "usb", "yd", "plain"])
@@ -138,6 +184,8 @@ def execute(plan):
     except ValueError:
         return {"violations": [], "digest": "invalid", "stats": {"invalid_plan": 1}, "nontrivial": False, "vtime": 0.0}
     st = {"frames": 0, "permitted": 0, "suppressed": 0, "claims_suppressed": 0}
+    if plan.get("aging"):
+        st["long_filtered_run_between_messages"] = 1
     log = []
     for evno, e in enumerate(plan["events"]):
         st["frames"] += 1
